@@ -316,6 +316,100 @@ proof fn lemma_chunk_unfold(s: Seq<u8>, i: int, out: Seq<u8>)
     }
 }
 
+// ---- witnesses: the specification on concrete containers (guards against a vacuous or mis-stated `decode`)
+proof fn lemma_chunk_fold_compressed(s: Seq<u8>, i: int, out: Seq<u8>, o2: Seq<u8>)
+    requires
+        0 <= i, i + 2 <= s.len(), hdr_sig(u16_at(s, i)) == 3, hdr_compressed(u16_at(s, i)), i + hdr_size(u16_at(s, i)) + 3 <= s.len(),
+        dec_toks(s, i + 2, i + hdr_size(u16_at(s, i)) + 3, 0, 8, out, out.len() as int) == Some(o2), o2.len() - out.len() <= 4096,
+    ensures dec_chunks(s, i, out) == dec_chunks(s, i + hdr_size(u16_at(s, i)) + 3, o2),
+{
+    reveal(dec_chunks);
+}
+proof fn lemma_copy3(o: Seq<u8>, off: int)
+    requires 1 <= off <= o.len(),
+    ensures copy_bytes(o, off, 3) == o.push(o[o.len() - off]).push(o.push(o[o.len() - off])[o.len() + 1 - off])
+        .push(o.push(o[o.len() - off]).push(o.push(o[o.len() - off])[o.len() + 1 - off])[o.len() + 2 - off]),
+{
+    reveal_with_fuel(copy_bytes, 4);
+}
+
+/// one chunk, literal 'A' then CopyToken 0x0000 (offset 1, length 3, overlapping): "AAAA"; satisfies both antecedents of the proved clause
+proof fn witness_decode_literal_and_copy()
+    ensures
+        valid_container(seq![1u8, 0x03, 0xB0, 0x02, 0x41, 0x00, 0x00]),
+        no_full_group_boundary(seq![1u8, 0x03, 0xB0, 0x02, 0x41, 0x00, 0x00], 1),
+        decode(seq![1u8, 0x03, 0xB0, 0x02, 0x41, 0x00, 0x00]) == seq![0x41u8, 0x41, 0x41, 0x41],
+{
+    let s = seq![1u8, 0x03, 0xB0, 0x02, 0x41, 0x00, 0x00];
+    let em = Seq::<u8>::empty();
+    lemma_p2_vals();
+    assert(u16_at(s, 1) == 0xB003);
+    assert(hdr_size(0xB003) == 3 && hdr_sig(0xB003) == 3 && hdr_compressed(0xB003));
+    assert(!flag_bit(2u8, 0) && flag_bit(2u8, 1)) by { assert(p2(0) as int == 1 && p2(1) as int == 2); assert(2int / 1 == 2 && 2int / 2 == 1); }
+    assert(u16_at(s, 5) == 0);
+    let o1 = em.push(0x41u8);
+    assert(copy_bit_count(1) == 4) by { reveal_with_fuel(bit_count_from, 2); }
+    assert(tok_off(0, 4) == 1 && tok_len(0, 4) == 3);
+    lemma_copy3(o1, 1);
+    let o4 = copy_bytes(o1, 1, 3);
+    assert(o4 =~= seq![0x41u8, 0x41, 0x41, 0x41]);
+    lemma_toks_end(s, 7, 7, 2u8, 2, o4, 0);
+    assert(dec_toks(s, 5, 7, 2u8, 1, o1, 0) == Some(o4)) by { reveal(dec_toks); }
+    lemma_toks_literal(s, 4, 7, 2u8, 0, em, 0);
+    lemma_toks_flag(s, 3, 7, 0u8, em, 0);
+    assert(dec_toks(s, 3, 7, 0u8, 8, em, 0) == Some(o4));
+    lemma_chunk_fold_compressed(s, 1, em, o4);
+    lemma_chunks_end(s, 7, o4);
+    assert(dec_chunks(s, 1, em) == Some(o4));
+    assert(no_full_group_boundary(s, 1)) by { reveal(no_full_group_boundary); }
+}
+
+/// the container of the C18 finding: chunk 1 = one full group of 8 literal tokens 'A'..'H', chunk 2 = literal 'I'.
+/// The specification says "ABCDEFGHI"; the container is valid but does NOT satisfy no_full_group_boundary.
+proof fn witness_full_group_container()
+    ensures
+        valid_container(seq![1u8, 0x08, 0xB0, 0x00, 0x41, 0x42, 0x43, 0x44, 0x45, 0x46, 0x47, 0x48, 0x01, 0xB0, 0x00, 0x49]),
+        !no_full_group_boundary(seq![1u8, 0x08, 0xB0, 0x00, 0x41, 0x42, 0x43, 0x44, 0x45, 0x46, 0x47, 0x48, 0x01, 0xB0, 0x00, 0x49], 1),
+        decode(seq![1u8, 0x08, 0xB0, 0x00, 0x41, 0x42, 0x43, 0x44, 0x45, 0x46, 0x47, 0x48, 0x01, 0xB0, 0x00, 0x49])
+            == seq![0x41u8, 0x42, 0x43, 0x44, 0x45, 0x46, 0x47, 0x48, 0x49],
+{
+    let s = seq![1u8, 0x08, 0xB0, 0x00, 0x41, 0x42, 0x43, 0x44, 0x45, 0x46, 0x47, 0x48, 0x01, 0xB0, 0x00, 0x49];
+    let em = Seq::<u8>::empty();
+    lemma_p2_vals();
+    assert(u16_at(s, 1) == 0xB008 && u16_at(s, 12) == 0xB001);
+    assert(hdr_size(0xB008) == 8 && hdr_sig(0xB008) == 3 && hdr_compressed(0xB008));
+    assert(hdr_size(0xB001) == 1 && hdr_sig(0xB001) == 3 && hdr_compressed(0xB001));
+    assert(forall|k: int| 0 <= k < 8 ==> !#[trigger] flag_bit(0u8, k)) by {
+        assert forall|k: int| 0 <= k < 8 implies !#[trigger] flag_bit(0u8, k) by { assert(0int / (p2(k as nat) as int) == 0) by (nonlinear_arith) requires p2(k as nat) > 0; }
+    }
+    let o1 = em.push(0x41u8); let o2 = o1.push(0x42u8); let o3 = o2.push(0x43u8); let o4 = o3.push(0x44u8);
+    let o5 = o4.push(0x45u8); let o6 = o5.push(0x46u8); let o7 = o6.push(0x47u8); let o8 = o7.push(0x48u8); let o9 = o8.push(0x49u8);
+    // chunk 1: data [3, 12)
+    lemma_toks_flag(s, 3, 12, 0u8, em, 0);
+    lemma_toks_literal(s, 4, 12, 0u8, 0, em, 0);
+    lemma_toks_literal(s, 5, 12, 0u8, 1, o1, 0);
+    lemma_toks_literal(s, 6, 12, 0u8, 2, o2, 0);
+    lemma_toks_literal(s, 7, 12, 0u8, 3, o3, 0);
+    lemma_toks_literal(s, 8, 12, 0u8, 4, o4, 0);
+    lemma_toks_literal(s, 9, 12, 0u8, 5, o5, 0);
+    lemma_toks_literal(s, 10, 12, 0u8, 6, o6, 0);
+    lemma_toks_literal(s, 11, 12, 0u8, 7, o7, 0);
+    lemma_toks_end(s, 12, 12, 0u8, 8, o8, 0);
+    assert(dec_toks(s, 3, 12, 0u8, 8, em, 0) == Some(o8));
+    assert(end_k(s, 3, 12, 0u8, 8) == 8);
+    // chunk 2: data [14, 16)
+    lemma_toks_flag(s, 14, 16, 0u8, o8, 8);
+    lemma_toks_literal(s, 15, 16, 0u8, 0, o8, 8);
+    lemma_toks_end(s, 16, 16, 0u8, 1, o9, 8);
+    assert(dec_toks(s, 14, 16, 0u8, 8, o8, 8) == Some(o9));
+    lemma_chunk_fold_compressed(s, 12, o8, o9);
+    lemma_chunks_end(s, 16, o9);
+    lemma_chunk_fold_compressed(s, 1, em, o8);
+    assert(dec_chunks(s, 1, em) == Some(o9));
+    assert(o9 =~= seq![0x41u8, 0x42, 0x43, 0x44, 0x45, 0x46, 0x47, 0x48, 0x49]);
+    assert(!no_full_group_boundary(s, 1)) by { reveal(no_full_group_boundary); }
+}
+
 /// what the validity of the container says about the compressed chunk at cs (ghost constants of one outer iteration)
 pub open spec fn chunk_facts(sq: Seq<u8>, cs: int, e: int, full: Option<Seq<u8>>, tgt: Option<Seq<u8>>, ek: int, base_len: int) -> bool {
     tgt is Some && full == dec_chunks(sq, e, tgt.unwrap()) && cs + 3 <= e <= sq.len() && no_full_group_boundary(sq, e)
@@ -377,7 +471,7 @@ pub open spec fn chunk_facts(sq: Seq<u8>, cs: int, e: int, full: Option<Seq<u8>>
                 }
             }
         }
-//@@ after /i \+= 4096;/
+//@@ after /\bi \+= \d+;/#1of5
             proof { if ok {
                 assert(s@.subrange(cs + 2, e) == sq.subrange(cs + 2, e));
                 assert(res@ == base + sq.subrange(cs + 2, e));
@@ -443,14 +537,14 @@ pub open spec fn chunk_facts(sq: Seq<u8>, cs: int, e: int, full: Option<Seq<u8>>
                         assert(bit_index == kk);
                         if ok { assert(i < e); }
                     }
-//@@ before /res\.push\(s\[i\]/
+//@@ before /res\.push\(/
                         proof {
                             //# C06.literal_past_end
                             assert(i < s@.len());
                             if ok { lemma_toks_literal(sq, i as int, e, bit_flags, kk, res@, start as int); }
                         }
 //@@ after /chunk_len \+= 1;/#1of2
-                        proof { if ok && kk == 7 { lemma_toks_k8(sq, i as int, e, bit_flags, 0u8, res@, start as int); } }
+                        proof { if ok && kk == 7 { lemma_toks_k8(sq, i_tok + 1, e, bit_flags, 0u8, res@, start as int); } }
 //@@ before /let token = /
                         proof {
                             //# C06.copy_token_past_end
@@ -514,7 +608,7 @@ pub open spec fn chunk_facts(sq: Seq<u8>, cs: int, e: int, full: Option<Seq<u8>>
                                 assert(res@ =~= r2 + r2.subrange(r2.len() - offset, r2.len() - offset + len));
                                 lemma_copy_add(res@, offset as int, 0, 0);
                                 assert(res@ == copy_bytes(res0, offset as int, len0 as int));
-                                if kk == 7 { lemma_toks_k8(sq, i as int, e, bit_flags, 0u8, res@, start as int); }
+                                if kk == 7 { lemma_toks_k8(sq, i_tok + 2, e, bit_flags, 0u8, res@, start as int); }
                             }
                         }
 //@@ before /Ok\(res\)/
